@@ -13,30 +13,35 @@ Definition lk (a : xleaf) : kl := match a with XS l => (KSTRING, l) | XI l => (K
 (* a word of unquoted text: an INT / FLOAT / ID / PLAIN_STRING lexeme; a FLOAT word carries the text str(float(lexeme)) it is re-printed as *)
 Inductive xword := WI (lx : text) | WF (lx printed : text) | WW (lx : text) | WP (lx : text).
 Definition wk (w : xword) : kl := match w with WI l => (KINT, l) | WF l _ => (KFLOAT, l) | WW l => (KID, l) | WP l => (KPLAIN, l) end.
-Inductive xval := XLeaf (a : xleaf) | XList (l : list xval) (trail : bool) | XWords (ws : list xword).   (* XWords: unquoted text of several tokens *)
 Inductive xkey := KQ (lx : text) | KW (ws : list xword).          (* a quoted key (STRING lexeme) / an unquoted key *)
 Inductive xpv := PVLeaf (a : xleaf) | PVWords (ws : list xword).   (* the value of a pair: one token or unquoted text *)
 Definition xpair := (xkey * xpv)%type.
-Inductive xarg := XAVal (v : xval) | XADict (first : xpair) (more : list xpair) (trail : bool).
+(* XWords: unquoted text of several tokens; XDict: a dictionary [k: v, ...] (as an argument's value or as an element of a list, at any depth) *)
+Inductive xval := XLeaf (a : xleaf) | XList (l : list xval) (trail : bool) | XWords (ws : list xword)
+                | XDict (first : xpair) (more : list xpair) (trail : bool).
+Inductive xarg := XAVal (v : xval) | XADict (first : xpair) (more : list xpair) (trail : bool)
+                 | XAColon (first : list xword) (more : list (list xword)).      (* unquoted text with colons: C:\data\in.csv, 12:30 *)
 Record xcmd := { xc_result : option text; xc_name : text; xc_args : list (text * xarg); xc_trail : bool }.   (* no result name: the EEMS 2.0 form *)
 
 (* tokens *)
 Definition tkj (trail : bool) (ls : list (list kl)) : list kl :=
   tk_join ls ++ (match ls with [] => [] | _ => if trail then [comma] else [] end).
+Definition tk_key (k : xkey) : list kl := match k with KQ lx => [(KSTRING, lx)] | KW ws => map wk ws end.
+Definition tk_pv (v : xpv) : list kl := match v with PVLeaf a => [lk a] | PVWords ws => map wk ws end.
+Definition tkx_pair (p : xpair) : list kl := tk_key (fst p) ++ colon :: tk_pv (snd p).
 Fixpoint tkx_value (v : xval) : list kl :=
   match v with
   | XLeaf a => [lk a]
   | XList l tr => lbt :: tkj tr (map tkx_value l) ++ [rbt]
   | XWords ws => map wk ws
+  | XDict p ps tr => lbt :: tkj tr (map tkx_pair (p :: ps)) ++ [rbt]
   end.
-Definition tk_key (k : xkey) : list kl := match k with KQ lx => [(KSTRING, lx)] | KW ws => map wk ws end.
-Definition tk_pv (v : xpv) : list kl := match v with PVLeaf a => [lk a] | PVWords ws => map wk ws end.
-Definition tkx_pair (p : xpair) : list kl := tk_key (fst p) ++ colon :: tk_pv (snd p).
 Definition tkx_arg (a : text * xarg) : list kl :=
   (KID, fst a) :: eqt ::
   match snd a with
   | XAVal v => tkx_value v
   | XADict p ps tr => lbt :: tkj tr (map tkx_pair (p :: ps)) ++ [rbt]
+  | XAColon p ps => map wk p ++ flat_map (fun q => colon :: map wk q) ps
   end.
 Definition lpt : kl := (KLPAREN, [40%N]).
 Definition rpt : kl := (KRPAREN, [41%N]).
@@ -57,19 +62,35 @@ Definition lden (a : xleaf) : pval :=
 (* unquoted text denotes the concatenation of its words, numerals re-printed (the blanks between the words are lost) *)
 Definition wpiece (w : xword) : text := match w with WI lx => str_of_Z (int_of_lexeme lx) | WF _ pr => pr | WW lx => lx | WP lx => lx end.
 Fixpoint wtext (ws : list xword) : text := match ws with [] => [] | w :: t => wpiece w ++ wtext t end.
+Definition kden (k : xkey) : text := match k with KQ lx => match sden lx with Some t => t | None => [] end | KW ws => wtext ws end.
+Definition pvden (v : xpv) : pval := match v with PVLeaf a => lden a | PVWords ws => PStr (wtext ws) end.
+Definition pden (p : xpair) : text * pexpr := (kden (fst p), PE (pvden (snd p)) 0%N).
+Fixpoint xdexp (kv : list xpair) : list (text * pexpr) :=
+  match kv with
+  | [] => []
+  | p :: t => match t with [] => [pden p] | _ => dict_set (xdexp t) (fst (pden p)) (snd (pden p)) end
+  end.
 Fixpoint xden (v : xval) : pval :=
-  match v with XLeaf a => lden a | XList l _ => PList (map (fun x => PE (xden x) 0%N) l) | XWords ws => PStr (wtext ws) end.
+  match v with XLeaf a => lden a | XList l _ => PList (map (fun x => PE (xden x) 0%N) l) | XWords ws => PStr (wtext ws)
+             | XDict p ps _ => PDict (xdexp (p :: ps)) end.
 Definition leaf_ok (a : xleaf) : bool := match a with XS lx => match sden lx with Some _ => true | None => false end | _ => true end.
 (* well-formed unquoted text: at least one word, the last one an identifier or a PLAIN_STRING (what the plain_string
    productions require); float words carry what the oracle prints for them *)
 Definition last_word_ok (ws : list xword) : bool := match last ws (WI []) with WW _ | WP _ => true | _ => false end.
 Definition word_fs_ok (fs : text -> option text) (w : xword) : bool :=
   match w with WF lx pr => match fs lx with Some x => if list_eq_dec N.eq_dec x pr then true else false | None => false end | _ => true end.
+Definition words_valid (fs : text -> option text) (ws : list xword) : bool := last_word_ok ws && forallb (word_fs_ok fs) ws.
+Definition key_ok (fs : text -> option text) (k : xkey) : bool :=
+  match k with KQ lx => match sden lx with Some _ => true | None => false end | KW ws => words_valid fs ws end.
+Definition pv_ok (fs : text -> option text) (v : xpv) : bool := match v with PVLeaf a => leaf_ok a | PVWords ws => words_valid fs ws end.
+Definition pair_ok (fs : text -> option text) (p : xpair) : bool := key_ok fs (fst p) && pv_ok fs (snd p).
 Fixpoint xval_ok (fs : text -> option text) (v : xval) : bool :=
-  match v with XLeaf a => leaf_ok a | XList l _ => forallb (xval_ok fs) l | XWords ws => last_word_ok ws && forallb (word_fs_ok fs) ws end.
+  match v with XLeaf a => leaf_ok a | XList l _ => forallb (xval_ok fs) l | XWords ws => last_word_ok ws && forallb (word_fs_ok fs) ws
+             | XDict p ps _ => forallb (pair_ok fs) (p :: ps) end.
 
-Lemma xval_ind' (Pr : xval -> Prop) : (forall a, Pr (XLeaf a)) -> (forall l tr, Forall Pr l -> Pr (XList l tr)) -> (forall ws, Pr (XWords ws)) -> forall v, Pr v.
-Proof. intros H1 H2 H3. fix F 1. intros [a|l tr|ws]; [apply H1| |apply H3]. apply H2. induction l as [|x l IH]; [constructor | constructor; [apply F | exact IH]]. Qed.
+Lemma xval_ind' (Pr : xval -> Prop) : (forall a, Pr (XLeaf a)) -> (forall l tr, Forall Pr l -> Pr (XList l tr)) -> (forall ws, Pr (XWords ws)) ->
+  (forall p ps tr, Pr (XDict p ps tr)) -> forall v, Pr v.
+Proof. intros H1 H2 H3 H4. fix F 1. intros [a|l tr|ws|p ps tr]; [apply H1| |apply H3|apply H4]. apply H2. induction l as [|x l IH]; [constructor | constructor; [apply F | exact IH]]. Qed.
 
 Section LR.
 Variable L : nat -> N.
@@ -78,6 +99,10 @@ Variable fs : text -> option text.
 Notation deco := (deco L P).
 Notation mk := (mk L P).
 Notation xval_ok := (xval_ok fs).
+Notation words_valid := (words_valid fs).
+Notation key_ok := (key_ok fs).
+Notation pv_ok := (pv_ok fs).
+Notation pair_ok := (pair_ok fs).
 Ltac lr := cbn [run step defaulted hd_error tl LrComplete.mk fst snd t_kind term_of action reduce production firstn skipn length map rev app
                 Nat.ltb Nat.leb goto Nat.add LrComplete.deco tkx_value tk_join tkj ge gl gp ga gc sh gt S_res S_eq S_name S_lp S_an S_val S_lb S_el S_ec S_arg S_ac S_cmd S_tp S_pc Nat.eqb lk].
 Ltac ev := cbn [eval bind first_line leaf_text LrComplete.mk t_kind t_lexeme t_line fst snd lk].
@@ -170,6 +195,8 @@ Definition S_kq : nat := sh S_lb T_STRING.           (* after a quoted key *)
 Definition S_tv : nat := sh S_kq T_COLON.            (* where the value of a pair with a quoted key starts *)
 Definition S_kw : nat := gt S_lb N_plain_string.     (* after an unquoted key *)
 Definition S_tv2 : nat := sh S_kw T_COLON.           (* where the value of a pair with an unquoted key starts *)
+Definition S_pp : nat := gt S_val N_permissive_plain_string.   (* after unquoted text that is an argument's value *)
+Definition S_co : nat := sh S_pp T_COLON.            (* after `text :` *)
 Definition inner (s : nat) : Prop := s = W_id \/ s = W_pl \/ s = W_int0 \/ s = W_fl0 \/ s = W_int \/ s = W_fl.
 Definition la4 (la : token) : Prop := t_kind la = KCOMMA \/ t_kind la = KRPAREN \/ t_kind la = KRBRACK \/ t_kind la = KCOLON.
 (* where unquoted text may start, and what may follow it there *)
@@ -178,14 +205,16 @@ Definition wfollow (s : nat) (la : token) : Prop :=
   ((s = S_lb \/ s = S_ec) /\ (t_kind la = KCOMMA \/ t_kind la = KRBRACK)) \/
   ((s = S_lb \/ s = S_pc) /\ t_kind la = KCOLON) \/
   ((s = S_tv \/ s = S_tv2) /\ (t_kind la = KCOMMA \/ t_kind la = KRBRACK)) \/
+  ((s = S_val \/ s = S_co) /\ t_kind la = KCOLON) \/
+  (s = S_co /\ (t_kind la = KCOMMA \/ t_kind la = KRPAREN)) \/
   (inner s /\ la4 la).
 Definition wterm (w : xword) : term := match w with WI _ => T_INT | WF _ _ => T_FLOAT | WW _ => T_ID | WP _ => T_PLAIN_STRING end.
 Ltac lrw := cbn [run step defaulted hd_error tl LrComplete.mk fst snd t_kind term_of action reduce production firstn skipn length map rev app
                  Nat.ltb Nat.leb goto Nat.add LrComplete.deco tkx_value tk_join tkj ge gl gp ga gc sh gt S_res S_eq S_name S_lp S_an S_val S_lb S_el S_ec S_arg S_ac S_cmd S_tp S_pc
-                 W_id W_pl W_int0 W_fl0 W_int W_fl S_kq S_tv S_kw S_tv2 wk wterm Nat.eqb lk].
+                 W_id W_pl W_int0 W_fl0 W_int W_fl S_kq S_tv S_kw S_tv2 S_pp S_co wk wterm Nat.eqb lk].
 Ltac evw := cbn [eval bind first_line leaf_text LrComplete.mk t_kind t_lexeme t_line fst snd lk wk].
 Ltac in_cases Hi := destruct Hi as [->|[->|[->|[->|[->| ->]]]]].
-Ltac wf_cases H := destruct H as [[-> [H|H]]|[[[->| ->] [H|H]]|[[[->| ->] H]|[[[->| ->] [H|H]]|[Hi [H|[H|[H|H]]]]]]]]; [| | | | | | | | | | | | in_cases Hi | in_cases Hi | in_cases Hi | in_cases Hi].
+Ltac wf_cases H := destruct H as [[-> [H|H]]|[[[->| ->] [H|H]]|[[[->| ->] H]|[[[->| ->] [H|H]]|[[[->| ->] H]|[[-> [H|H]]|[Hi [H|[H|[H|H]]]]]]]]]]; [| | | | | | | | | | | | | | | | in_cases Hi | in_cases Hi | in_cases Hi | in_cases Hi].
 Lemma wfollow_la s la : wfollow s la -> la4 la.
 Proof. unfold wfollow, la4. tauto. Qed.
 Lemma wfollow_inner s w la : wfollow s la -> inner (sh s (wterm w)).
@@ -208,7 +237,7 @@ Proof. induction ws as [|w ws IH]; [discriminate|]. intros Hl Hf s i T0 st la re
   - (* a word followed by more words *)
     assert (Hl' : last_word_ok (w2 :: ws') = true) by (unfold last_word_ok in *; cbn [last] in *; exact Hl).
     cbn [map LrComplete.deco app]. set (tw := mk i (wk w)).
-    assert (WS : wfollow (sh s (wterm w)) la) by (right; right; right; right; split; [eapply wfollow_inner; exact Hw | eapply wfollow_la; exact Hw]).
+    assert (WS : wfollow (sh s (wterm w)) la) by (do 6 right; split; [eapply wfollow_inner; exact Hw | eapply wfollow_la; exact Hw]).
     destruct (IH Hl' F2 (sh s (wterm w)) (S i) (Leaf tw) ((s, T0) :: st) la rest WS) as (n & T & Hn & Hr & He).
     exists (1 + n + 1)%nat, (Br F_p_plain_string_with_number [Leaf tw; T]). split; [cbn [length] in *; lia|]. split.
     + eapply reaches_trans; [eapply reaches_trans; [|exact Hr]|].
@@ -228,22 +257,7 @@ Proof. intros W s i T0 st la rest H. cbn [Surface.xval_ok] in W. apply andb_true
   - evw. rewrite He. reflexivity.
   - reflexivity.
 Qed.
-Theorem xvalue_ok v : xvalue_spec v.
-Proof. induction v as [a|l tr IH|ws] using xval_ind'; [apply xleaf_ok | apply xlist_ok, IH | apply xwords_ok]. Qed.
-
 (* ---- dictionaries: key: value pairs; a key is a quoted string or unquoted text, a value one token or unquoted text ---- *)
-Definition words_valid (ws : list xword) : bool := last_word_ok ws && forallb (word_fs_ok fs) ws.
-Definition key_ok (k : xkey) : bool := match k with KQ lx => match sden lx with Some _ => true | None => false end | KW ws => words_valid ws end.
-Definition pv_ok (v : xpv) : bool := match v with PVLeaf a => leaf_ok a | PVWords ws => words_valid ws end.
-Definition pair_ok (p : xpair) : bool := key_ok (fst p) && pv_ok (snd p).
-Definition kden (k : xkey) : text := match k with KQ lx => match sden lx with Some t => t | None => [] end | KW ws => wtext ws end.
-Definition pvden (v : xpv) : pval := match v with PVLeaf a => lden a | PVWords ws => PStr (wtext ws) end.
-Definition pden (p : xpair) : text * pexpr := (kden (fst p), PE (pvden (snd p)) 0%N).
-Fixpoint xdexp (kv : list xpair) : list (text * pexpr) :=
-  match kv with
-  | [] => []
-  | p :: t => match t with [] => [pden p] | _ => dict_set (xdexp t) (fst (pden p)) (snd (pden p)) end
-  end.
 (* the value of a pair, started in S_tv / S_tv2, followed by `,` or `]` *)
 Definition pvsem (v : xpv) : sem :=
   match v with
@@ -357,15 +371,71 @@ Proof. induction kv as [|p kv IH]; [congruence|]. intros tr _ W s i T0 st rb res
     + rewrite er_dict_set, Hp2, Hp. reflexivity.
 Qed.
 
+(* a dictionary as a value, in any value context *)
+Lemma xdict_ok p ps tr : xvalue_spec (XDict p ps tr).
+Proof. intros W s i T0 st la rest H. cbn [Surface.xval_ok] in W. set (kv := p :: ps) in *. set (tj := tkj tr (map tkx_pair kv)).
+  change (tkx_value (XDict p ps tr)) with (lbt :: tj ++ [rbt]).
+  cbn [LrComplete.deco]. rewrite deco_app. cbn [LrComplete.deco app]. rewrite <- app_assoc. cbn [app].
+  set (rb := mk (length tj + S i) rbt). set (lb := mk i lbt).
+  destruct (xpairs_ok kv tr ltac:(discriminate) W S_lb (S i) (Leaf lb) ((s, T0) :: st) rb (la :: rest) (or_introl eq_refl) eq_refl)
+    as (n & T & d & Hn & Hr & He & Hp).
+  exists (1 + n + 4)%nat, (Br F_p_expression [Br F_p_list [Leaf lb; Br F_p_elements_tuple_pairs [T]; Leaf rb]]), (PE (PDict d) (L i)).
+  split; [|split; [|split]].
+  - cbn [length]. rewrite app_length. cbn [length]. fold tj in Hn. lia.
+  - eapply reaches_trans; [eapply reaches_trans; [|exact Hr]|].
+    + intros f. unfold lb, lbt. ctx_cases H; repeat (progress lr); reflexivity.
+    + intros f. unfold rb, rbt. ctx_cases H; cbn [gl gp Nat.eqb]; repeat (progress (lr; rewrite ?H)); reflexivity.
+  - ev. rewrite He. reflexivity.
+  - cbn [erase_e erase_v xden]. fold er. rewrite Hp. reflexivity.
+Qed.
+Theorem xvalue_ok v : xvalue_spec v.
+Proof. induction v as [a|l tr IH|ws|p ps tr] using xval_ind'; [apply xleaf_ok | apply xlist_ok, IH | apply xwords_ok | apply xdict_ok]. Qed.
+
 (* ---- arguments ---- *)
-Definition xarg_ok (a : xarg) : bool := match a with XAVal v => xval_ok v | XADict p ps _ => forallb pair_ok (p :: ps) end.
-Definition xaexp (a : xarg) : pval := match a with XAVal v => xden v | XADict p ps _ => PDict (xdexp (p :: ps)) end.
+Definition xarg_ok (a : xarg) : bool :=
+  match a with
+  | XAVal v => xval_ok v | XADict p ps _ => forallb pair_ok (p :: ps)
+  | XAColon p ps => words_valid p && forallb words_valid ps && match ps with [] => false | _ => true end
+  end.
+Definition ctext_of (p : list xword) (ps : list (list xword)) : text := wtext p ++ flat_map (fun q => 58%N :: wtext q) ps.
+Definition xaexp (a : xarg) : pval :=
+  match a with XAVal v => xden v | XADict p ps _ => PDict (xdexp (p :: ps)) | XAColon p ps => PStr (ctext_of p ps) end.
+(* text : text : ... -- the colons are kept; left to right, the accumulated text sits in state S_pp *)
+Definition isbr (t : tree) : Prop := match t with Br _ _ => True | Leaf _ => False end.
+Lemma colon_tail : forall ps, forallb words_valid ps = true -> forall acc Tacc i T0 st la rest, actx la ->
+  eval fs Tacc = SOk (SText acc) -> isbr Tacc ->
+  exists n T, (n <= 6 * length (flat_map (fun q => colon :: map wk q) ps))%nat /\
+    reaches ((S_pp, Tacc) :: (S_val, T0) :: st) (deco i (flat_map (fun q => colon :: map wk q) ps) ++ la :: rest)
+            ((S_pp, T) :: (S_val, T0) :: st) (la :: rest) n /\
+    eval fs T = SOk (SText (acc ++ flat_map (fun q => 58%N :: wtext q) ps)) /\ isbr T.
+Proof. induction ps as [|q ps IH]; intros W acc Tacc i T0 st la rest Hla He Hb.
+  - exists 0%nat, Tacc. cbn [flat_map length LrComplete.deco app]. rewrite app_nil_r. split; [lia|]. split; [intros f; reflexivity | split; [exact He | exact Hb]].
+  - cbn [forallb] in W. apply andb_true_iff in W as [W1 W2]. unfold words_valid in W1. apply andb_true_iff in W1 as [V1 V2].
+    cbn [flat_map]. rewrite deco_app. cbn [LrComplete.deco length]. rewrite <- app_assoc. cbn [app]. rewrite map_length.
+    set (c := mk i colon). set (tl_ := flat_map (fun q0 => colon :: map wk q0) ps).
+    (* what follows this part: a colon (more parts) or the end of the value *)
+    assert (Hnext : exists la' rest', deco (S (length q) + i) tl_ ++ la :: rest = la' :: rest' /\ (t_kind la' = KCOLON \/ t_kind la' = KCOMMA \/ t_kind la' = KRPAREN)).
+    { unfold tl_. destruct ps as [|q2 ps']; cbn [flat_map app LrComplete.deco]; [exists la, rest; split; [reflexivity | destruct Hla; tauto] | eexists; eexists; split; [reflexivity | left; reflexivity]]. }
+    destruct Hnext as (la' & rest' & En & Hk). rewrite En.
+    assert (Hw : wfollow S_co la') by (unfold wfollow; destruct Hk as [K|[K|K]]; tauto).
+    destruct (words_ok q V1 V2 S_co (S i) (Leaf c) ((S_pp, Tacc) :: (S_val, T0) :: st) la' rest' Hw) as (n & Tq & Hn & Hr & Heq).
+    set (Tn := Br F_p_permissive_plain_stirng_with_colon [Tacc; Leaf c; Br F_p_permissive_plain_string [Tq]]).
+    assert (Hen : eval fs Tn = SOk (SText (acc ++ 58%N :: wtext q))) by (unfold Tn; evw; rewrite He, Heq; reflexivity).
+    destruct (IH W2 (acc ++ 58%N :: wtext q) Tn (S (length q) + i)%nat T0 st la rest Hla Hen I) as (n2 & T2 & Hn2 & Hr2 & He2 & Hb2).
+    fold tl_ in Hr2. rewrite En in Hr2.
+    exists (1 + n + 2 + n2)%nat, T2. split; [|split; [|split]]; [| | |exact Hb2].
+    + cbn [length]. rewrite app_length, map_length. fold tl_ in Hn2. destruct q; [discriminate|]. cbn [length] in *. lia.
+    + eapply reaches_trans; [eapply reaches_trans; [eapply reaches_trans; [|exact Hr]|] | exact Hr2].
+      * intros f. unfold c, colon. repeat (progress lrw). reflexivity.
+      * intros f. destruct Hk as [K|[K|K]]; repeat (progress (lrw; rewrite ?K)); reflexivity.
+    + rewrite He2. rewrite <- app_assoc. reflexivity.
+Qed.
 Definition xarg_matches (x : text * xarg) (a : parg) : Prop := pa_name a = fst x /\ erase_e (pa_value a) = PE (xaexp (snd x)) 0%N.
 Lemma xargval_ok (a : xarg) : xarg_ok a = true -> forall i T0 st la rest, actx la ->
   exists n T e, (n + 4 <= 10 * length (tl (tl (tkx_arg (nil, a)))))%nat /\
     reaches ((S_val, T0) :: st) (deco i (tl (tl (tkx_arg (nil, a)))) ++ la :: rest) (((ge S_val), T) :: (S_val, T0) :: st) (la :: rest) n /\
     eval fs T = SOk (SExpr e) /\ erase_e e = PE (xaexp a) 0%N.
-Proof. intros W i T0 st la rest H. destruct a as [v|p ps tr]; cbn [tkx_arg tl snd xarg_ok] in *.
+Proof. intros W i T0 st la rest H. destruct a as [v|p ps tr|p ps]; cbn [tkx_arg tl snd xarg_ok] in *.
   - destruct (xvalue_ok v W S_val i T0 st la rest) as (n & T & e & A & B & C & D); [left; split; [reflexivity | exact H]|].
     exists n, T, e. auto.
   - set (kv := p :: ps) in *. set (tj := tkj tr (map tkx_pair kv)).
@@ -381,6 +451,28 @@ Proof. intros W i T0 st la rest H. destruct a as [v|p ps tr]; cbn [tkx_arg tl sn
       * intros f. unfold rb, rbt. cbn [gp Nat.eqb]. destruct H as [H|H]; repeat (progress (lr; rewrite ?H)); reflexivity.
     + ev. rewrite He. reflexivity.
     + cbn [erase_e erase_v xaexp]. fold er. rewrite Hp. reflexivity.
+  - apply andb_true_iff in W as [W W3]. apply andb_true_iff in W as [W1 W2]. unfold words_valid in W1. apply andb_true_iff in W1 as [V1 V2].
+    destruct ps as [|q ps']; [discriminate|]. clear W3.
+    set (ps := q :: ps') in *.
+    rewrite deco_app. rewrite <- app_assoc. rewrite map_length.
+    set (tl_ := flat_map (fun q0 => colon :: map wk q0) ps).
+    assert (En : exists la' rest', deco (length p + i) tl_ ++ la :: rest = la' :: rest' /\ t_kind la' = KCOLON).
+    { unfold tl_, ps. cbn [flat_map app LrComplete.deco]. eexists; eexists; split; reflexivity. }
+    destruct En as (la' & rest' & En & Hk). rewrite En.
+    assert (Hw : wfollow S_val la') by (unfold wfollow; tauto).
+    destruct (words_ok p V1 V2 S_val i T0 st la' rest' Hw) as (n & Tp & Hn & Hr & Hep).
+    set (T1 := Br F_p_permissive_plain_string [Tp]).
+    assert (He1 : eval fs T1 = SOk (SText (wtext p))) by (unfold T1; evw; rewrite Hep; reflexivity).
+    destruct (colon_tail ps W2 (wtext p) T1 (length p + i)%nat T0 st la rest H He1 I) as (n2 & T2 & Hn2 & Hr2 & He2 & Hb2).
+    fold tl_ in Hr2. rewrite En in Hr2.
+    exists (n + 1 + n2 + 1)%nat, (Br F_p_expression [T2]), (PE (PStr (ctext_of p ps)) (first_line T2)).
+    split; [|split; [|split]].
+    + rewrite app_length, map_length. fold tl_ in Hn2. destruct p; [discriminate|]. cbn [length] in *. lia.
+    + eapply reaches_trans; [eapply reaches_trans; [eapply reaches_trans; [exact Hr|]| exact Hr2]|].
+      * intros f. repeat (progress (lrw; rewrite ?Hk)); reflexivity.
+      * intros f. destruct H as [A|A]; repeat (progress (lrw; rewrite ?A)); reflexivity.
+    + evw. destruct T2 as [|f2 l2]; [destruct Hb2|]. rewrite He2. reflexivity.
+    + reflexivity.
 Qed.
 Lemma tkx_arg_split x : tkx_arg x = (KID, fst x) :: eqt :: tl (tl (tkx_arg (nil, snd x))).
 Proof. destruct x as [nm a]. reflexivity. Qed.
